@@ -6,6 +6,7 @@ import random
 from ..common import (REPO, Report, cbool, chex, clist, cstr, decide, load_findings, run_case_shards, run_impl,
                       standard_proof_part)
 from .. import pddlgen as G
+from .. import c16_seq as SEQ
 from .c04 import StateTable
 
 PROP = "C16"
@@ -235,6 +236,8 @@ def build_cases(rng, worlds, probes, tier):
             runs = family_runs(rng, base, bad, tier)
             # a joint plan for the exporter: the family's joint action (with nops) first, then random joint actions
             lines = [render_joint(rng, with_nops(rng, base, rng.randint(0, 2)))]
+            if rng.random() < 0.12:                                    # nobody acts in the first step
+                lines.insert(0, render_joint(rng, [list(NOP) for _ in range(rng.randint(1, 3))]))
             for _ in range(rng.choice([0, 1, 1, 2])):
                 kk = rng.randint(0, 3)
                 nxt = pick_independent(rng, good or wd["calls"], fp_of, kk) if rng.random() < 0.7 else \
@@ -274,6 +277,24 @@ def build_cases(rng, worlds, probes, tier):
             cases.append(dict(base_of, kind="malformed:" + kind, base=[], runs=[], lines=lines, allow=False,
                               exporter_allow=False, strict=False))
     return cases
+
+
+def build_sequences(rng, n):
+    """process-level sequences (harness/c16_seq.py): worlds with several problems, probed, then the call sequences"""
+    sworlds = SEQ.gen_seq_worlds(rng, n, footprint)
+    jobs, owner = [], []
+    for i, sw in enumerate(sworlds):
+        for c in sw["contexts"]:
+            jobs.append({"op": "c16.probe", "domain_text": sw["domains"][c["domain"]], "problem_text": c["problem_text"],
+                         "calls": sw["calls"]})
+            owner.append(i)
+    probes = run_impl(jobs)
+    out = []
+    for i, sw in enumerate(sworlds):
+        q = SEQ.build_sequence(rng, sw, [p for p, o in zip(probes, owner) if o == i], (render_joint, with_nops, pick_independent))
+        if q and q["steps"]:
+            out.append(q)
+    return out
 
 
 def fixture_cases(tier):
@@ -332,7 +353,8 @@ def case_literal(c, res, eps_hex):
     runs = []
     for r, o in zip(c["runs"], res["runs"]):
         ob = "(JRet %s)" % tab.mstate(o["value"]) if "value" in o else ("JRefused" if "refused" in o else "JRaised")
-        runs.append("{| r_members := %s; r_allow := %s; r_obs := %s |}" % (clist([ccall(m) for m in r["members"]]), cbool(r["allow"]), ob))
+        runs.append("{| r_members := %s; r_allow := %s; r_obs := %s; r_intact := %s |}" % (
+            clist([ccall(m) for m in r["members"]]), cbool(r["allow"]), ob, cbool(o.get("intact", True))))
     if "steps" in res:
         trace = "(Returned %s)" % clist([
             "{| js_pre := %s; js_ops := %s; js_post := %s |}" % (tab.mstate(s["pre"]), clist([cstr(o) for o in s["ops"]]), tab.mstate(s["post"]))
@@ -342,11 +364,11 @@ def case_literal(c, res, eps_hex):
     export = "(Returned %s)" % cstr(res["export"]) if "export" in res else "Raised"
     lines = res.get("lines", c.get("lines", []))
     return ("(%s{| j_text := %s; j_nums := %s; j_eps := %s; j_objs := %s; j_state := %s; j_base := %s; j_runs := %s; "
-            "j_plan := %s; j_allow := %s; j_exporter_allow := %s; j_strict := %s; j_trace := %s; j_export := %s |})") % (
+            "j_plan := %s; j_allow := %s; j_exporter_allow := %s; j_strict := %s; j_trace := %s; j_export := %s; j_intact := %s |})") % (
         "".join(tab.defs), cstr(dtext), nums, chex(float.fromhex(eps_hex)),
         clist(["(%s, %s)" % (cstr(n), cstr(t)) for n, t in objs]), init_ref, clist([ccall(m) for m in c["base"]]),
         clist(runs), clist([cstr(l) for l in lines]), cbool(c["allow"]), cbool(c["exporter_allow"]), cbool(c["strict"]),
-        trace, export)
+        trace, export, cbool(res.get("plan_intact", True)))
 
 
 CLASS_NAMES = {"n": "non_interfering_all_applicable(judged)", "r": "refusal(judged)", "i": "interfering(not judged)",
@@ -393,23 +415,37 @@ def run(args):
     standard_proof_part(rep, PROP)
     rng = random.Random(args.seed * 7919 + 16)
     cfg = run_impl([{"op": "core.numeric_config"}], nproc=1)[0]
+    seqs = []
     if args.replay:
         data = json.load(open(args.replay))
-        cases = [data["input"]["case"]]
+        if "sequence" in data["input"]:
+            cases, seqs = [], [data["input"]["sequence"]]
+        else:
+            cases = [data["input"]["case"]]
     else:
         worlds = gen_worlds(rng, {"quick": 44, "thorough": 180}[args.tier])
         probes = run_impl([{"op": "c16.probe", "domain_text": w["domain_text"], "problem_text": w["problem_text"],
                             "calls": w["calls"]} for w in worlds])
         cases = corpus_cases() + fixture_cases(args.tier) + build_cases(rng, worlds, probes, args.tier)
+        seqs = build_sequences(rng, {"quick": 26, "thorough": 110}[args.tier])
     hashseeds = [0] if args.tier == "quick" else [0, 1]
-    all_cases, all_verdicts = [], ""
+    all_cases, all_verdicts, seq_units = [], "", []
     info_total = {"shards": 0, "shard_errors": [], "cmd": ""}
     dist = {"cases": 0, "by_kind": {}, "direct_runs": 0, "run_tags": {}, "run_classes": {}, "plan_classes": {},
             "members_per_run": {}, "nops_per_run": {}, "family_sizes_judged_all_permutations": {}, "allow": {"false": 0, "true": 0},
             "direct_returned": 0, "direct_refused": 0, "direct_other_error": 0, "plan_lines": {}, "plans_raised": 0,
-            "regex_as_modelled": None, "features": {}}
+            "regex_as_modelled": None, "features": {}, "not_intact": 0,
+            "sequences": {"jobs": 0, "steps": 0, "steps_by_kind": {}, "step_tags": {}, "step_classes": {}, "blocks": {},
+                          "problems_per_domain_object": {}, "with_second_domain_same_name": 0, "steps_per_job": {},
+                          "refused_steps": 0, "judged_steps_after_a_refusal": 0, "judged_steps_after_an_allowed_plan": 0,
+                          "plans_via_rewritten_file": 0, "steps_on_a_returned_state_object": 0}}
     for hs in hashseeds:
         results = run_impl([job_of(c) for c in cases], hashseed=hs)
+        # every sequence is ONE job in a worker process of its own (the order of the calls is the input)
+        seq_results = []
+        for i in range(0, len(seqs), 16):
+            chunk = seqs[i:i + 16]
+            seq_results += run_impl([SEQ.job_of(q) for q in chunk], hashseed=hs, nproc=len(chunk))
         lits, kept, units = [], [], []
         for c, res in zip(cases, results):
             if "raised" in res and "nums" not in res:
@@ -422,20 +458,67 @@ def run(args):
                     dist["regex_as_modelled"] = bool(res["regex_expected"]) and dist["regex_as_modelled"] is not False
             if lit is None:
                 continue
-            lits.append(lit)
-            kept.append((c, res))
+            lits.append("(true, %s)" % lit)
+            kept.append((c, res, True, None))
             units.append(2 * (len(c["runs"]) + 1))
+        for q, qres in zip(seqs, seq_results):
+            sd = dist["sequences"]
+            if hs == hashseeds[0]:
+                sd["jobs"] += 1
+                if qres.get("regex_expected") is not None:
+                    dist["regex_as_modelled"] = bool(qres["regex_expected"]) and dist["regex_as_modelled"] is not False
+                if "steps_out" not in qres:
+                    sd["jobs_failed"] = sd.get("jobs_failed", 0) + 1
+                    sd.setdefault("failures", []).append(str(qres)[:200])
+                for b in q.get("blocks", []):
+                    sd["blocks"][b] = sd["blocks"].get(b, 0) + 1
+                npd = str(len([p for p in q["problems"] if p["domain"] == 0]))
+                sd["problems_per_domain_object"][npd] = sd["problems_per_domain_object"].get(npd, 0) + 1
+                sd["with_second_domain_same_name"] += 1 if len(q["domains"]) > 1 else 0
+                sd["steps_per_job"][str(len(q["steps"]))] = sd["steps_per_job"].get(str(len(q["steps"])), 0) + 1
+            for c, res, with_plan, step in SEQ.expand(q, qres):
+                lit = case_literal(c, res, cfg["epsilon"])
+                if lit is None:
+                    continue
+                lits.append("(%s, %s)" % (cbool(with_plan), lit))
+                kept.append((c, res, with_plan, (q, step, qres["steps_out"][step])))
+                units.append(2 * (len(c["runs"]) + (1 if with_plan else 0)))
         both, info = run_case_shards(PROP, CORR, lits, shard_size=10, header_extra=HEADER, max_bytes=110_000,
-                                     run_fn="Corr.C16.run2", units=units)
+                                     run_fn="Corr.C16.run2_sel", units=units)
         info_total["shards"] += info["shards"]
         info_total["shard_errors"] += info["shard_errors"]
         info_total["cmd"] = info["cmd"]
         pos = 0
-        for (c, res), u in zip(kept, units):
+        seq_hist = {}
+        for (c, res, with_plan, seq), u in zip(kept, units):
             chunk = both[pos:pos + u]
             pos += u
             verd, klass = chunk[0::2], chunk[1::2]
             lit = case_literal(c, res, cfg["epsilon"])
+            if seq is not None:
+                q, step, o = seq
+                st = q["steps"][step]
+                k = klass[0]
+                hist = seq_hist.setdefault(id(q), {"refused": False, "allowed": False})
+                inp = {"sequence": q, "step": step, "unit": "plan" if with_plan else "run", "hashseed": hs, "class": k,
+                       "the_step": st, "implementation": o}
+                seq_units.append(({"lit": lit, "input": inp, "nontrivial": step >= 1 and k in "nr", "witness_of": None}, verd[0]))
+                if hs == hashseeds[0]:
+                    sd = dist["sequences"]
+                    sd["steps"] += 1
+                    sd["steps_by_kind"][st["kind"]] = sd["steps_by_kind"].get(st["kind"], 0) + 1
+                    sd["step_tags"][st.get("tag", "?")] = sd["step_tags"].get(st.get("tag", "?"), 0) + 1
+                    sd["step_classes"][CLASS_NAMES.get(k, k)] = sd["step_classes"].get(CLASS_NAMES.get(k, k), 0) + 1
+                    sd["plans_via_rewritten_file"] += 1 if st.get("via") == "file" else 0
+                    sd["steps_on_a_returned_state_object"] += 1 if st.get("state", "init") != "init" else 0
+                    sd["judged_steps_after_a_refusal"] += 1 if hist["refused"] and k in "nr" else 0
+                    sd["judged_steps_after_an_allowed_plan"] += 1 if hist["allowed"] and k in "nr" else 0
+                    refused = "refused" in o.get("run", {}) or o.get("trace_raised", {}).get("raised") == "ValueError"
+                    sd["refused_steps"] += 1 if refused else 0
+                    dist["not_intact"] += 0 if o.get("run", o).get("intact", True) else 1
+                    hist["refused"] = hist["refused"] or refused
+                    hist["allowed"] = hist["allowed"] or (st["kind"] != "apply" and bool(st["allow"]))
+                continue
             base_case = {k: v for k, v in c.items() if k not in ("witness_of", "runs", "calls")}
             for i, r in enumerate(c["runs"]):
                 inp = {"case": dict(base_case, runs=[r], lines=[]), "unit": "run", "hashseed": hs, "class": klass[i],
@@ -444,7 +527,7 @@ def run(args):
                 all_cases.append({"lit": lit, "input": inp, "nontrivial": nontriv, "witness_of": c.get("witness_of")})
                 all_verdicts += verd[i]
             inp = {"case": dict(base_case, runs=[]), "unit": "plan", "hashseed": hs, "class": klass[-1],
-                   "implementation": {k: res.get(k) for k in ("steps", "trace_raised", "export", "export_raised")}}
+                   "implementation": {k: res.get(k) for k in ("steps", "trace_raised", "export", "export_raised", "plan_intact")}}
             all_cases.append({"lit": lit, "input": inp, "nontrivial": len(res.get("lines", [])) >= 1 and klass[-1] in "nrm",
                               "witness_of": c.get("witness_of")})
             all_verdicts += verd[-1]
@@ -452,8 +535,10 @@ def run(args):
                 for f in c.get("features", []):
                     dist["features"][f] = dist["features"].get(f, 0) + 1
                 perm_ok = 0
+                dist["not_intact"] += 0 if res.get("plan_intact", True) else 1
                 for r, o, k in zip(c["runs"], res["runs"], klass):
                     dist["direct_runs"] += 1
+                    dist["not_intact"] += 0 if o.get("intact", True) else 1
                     dist["run_tags"][r.get("tag", "?").split("-at-")[0]] = dist["run_tags"].get(r.get("tag", "?").split("-at-")[0], 0) + 1
                     dist["run_classes"][CLASS_NAMES.get(k, k)] = dist["run_classes"].get(CLASS_NAMES.get(k, k), 0) + 1
                     nm = len([m for m in r["members"] if m[0] != "nop"])
@@ -473,6 +558,10 @@ def run(args):
                 n = len(res.get("lines", []))
                 dist["plan_lines"][str(n)] = dist["plan_lines"].get(str(n), 0) + 1
                 dist["plans_raised"] += 1 if "trace_raised" in res else 0
+    # sequence steps first: their replays re-run the whole job in a process of its own, so they reproduce whatever an
+    # earlier call left behind (a plain case shares its worker process with other cases of the run)
+    all_cases = [u for u, _ in seq_units] + all_cases
+    all_verdicts = "".join(v for _, v in seq_units) + all_verdicts
     decide(rep, PROP, CORR, all_cases, all_verdicts, info_total, explain_expr="Corr.C16.explain %s", header_extra=HEADER,
            max_replays=5)
     if not args.replay:
@@ -495,11 +584,27 @@ def run(args):
         "member is inapplicable and not allowed; interfering / forced runs are only compared with the model. Each family also yields a joint "
         "plan (1-3 lines, tight / spaced / loose separators, nops) run through MultiAgentTrajectoryExporter.parse_plan and export (text read "
         "back inside Coq), with the two allow switches; malformed lines (upper-case action, unknown action, blank group, empty line, no "
-        "brackets); and the 5 joint plans shipped under tests/multi_agent_tests. Non-trivial: a judged run with >= 2 real members, or a "
-        "judged / malformed plan with >= 1 line; distinct by input hash.")
-    cov["samples"] = [{"kind": c["input"]["case"]["kind"], "unit": c["input"]["unit"], "class": c["input"]["class"],
-                       "runs": c["input"]["case"].get("runs"), "lines": c["input"]["case"].get("lines")}
-                      for c in all_cases[:1] + all_cases[len(all_cases) // 2:len(all_cases) // 2 + 2] + all_cases[-1:]]
+        "brackets); and the 5 joint plans shipped under tests/multi_agent_tests. Around every direct call the driver also observes that the "
+        "state object passed in serializes as before (flag, facts, fluents) and that the answer is another object (r_intact / j_intact). "
+        "PROCESS-LEVEL SEQUENCES (harness/c16_seq.py, op c16.sequence): one worker process per sequence, 8-22 calls on REUSED objects - "
+        "one Domain object with 2-3 problems whose object sets differ (extra objects of quantified types; the same call texts in all), "
+        "sometimes a second Domain parsed from a text with the same name and one effect literal flipped; exporter instances used for "
+        "several plans with the per-call allow flag changing (F,T,F / T,F / ..., another exporter instance in between); refused joint "
+        "actions followed by calls on the same state object and exporter; returned state objects handed to later calls twice; one "
+        "plan-file path rewritten; idle joint actions alone / first in a plan / on the shared initial-state object. Each step is judged "
+        "as a case of its own with the model and the spec evaluated on THAT call's inputs. Non-trivial: a judged run with >= 2 real "
+        "members, a judged / malformed plan with >= 1 line, or a judged sequence step that is not the first; distinct by input hash.")
+    def sample(c):
+        i = c["input"]
+        if "sequence" in i:
+            return {"kind": "sequence", "step": i["step"], "of": len(i["sequence"]["steps"]), "the_step": i["the_step"],
+                    "class": i["class"], "blocks": i["sequence"].get("blocks")}
+        return {"kind": i["case"]["kind"], "unit": i["unit"], "class": i["class"], "runs": i["case"].get("runs"),
+                "lines": i["case"].get("lines")}
+    plain = [c for c in all_cases if "case" in c["input"]]
+    seqc = [c for c in all_cases if "sequence" in c["input"]]
+    cov["samples"] = [sample(c) for c in plain[:1] + plain[len(plain) // 2:len(plain) // 2 + 2] + plain[-1:] +
+                      seqc[len(seqc) // 2:len(seqc) // 2 + 2]]
     rep.assumptions = ["ASCII text; joint plan lines in lower case (the joint reader does not fold case)",
                        "initial state and object table come from the library's ProblemParser (C05)",
                        "every member's simultaneous effects are consistent along the sequential run (else skipped by the spec's own test)",
